@@ -18,4 +18,27 @@ theorem two_path_lookups_tie :
     Risor.Generated.C13.twoStringMethodLookups =
       [("MkdirTemp", [99], false), ("Rename", [0, 1], true), ("Symlink", [0, 1], true)] := by decide
 
+/-- the method `(*Filesystem).resolvePath` of os/localfs/localfs.go — through which every
+    operation of the local filesystem resolves its path arguments — is ONE statement: the stored
+    base and the RAW argument go to `os.ResolvePath`.  Nothing inspects the argument before it
+    is cleaned and checked (no "this is one of our own host paths" shortcut).  This is what the
+    model's `localResolve base p := resolvePath base p` says, and what `lsession_confined`,
+    `own_host_prefix_confined` and `handed_back_nests` are stated over. -/
+theorem localResolve_tie :
+    Risor.Generated.C13.localResolveSig = "func (fs *Filesystem) resolvePath(path, op string) (string, error)"
+    ∧ Risor.Generated.C13.localResolveStmts = ["return ros.ResolvePath(fs.base, path, op)"]
+    ∧ ∀ base p, localResolve base p = Risor.Generated.C13.resolvePath base p := by
+  refine ⟨by decide, by decide, fun _ _ => rfl⟩
+
+/-- every method of `*Filesystem` passes each of its path parameters to `fs.resolvePath` and to
+    nothing else unresolved; the only string parameter that reaches the Go `os` package as it
+    is, is `MkdirTemp`'s name pattern (`os.MkdirTemp` refuses a pattern with a separator).  A
+    further method, or one that uses a path parameter unresolved, shows up here. -/
+theorem localfs_path_flow_tie :
+    Risor.Generated.C13.localfsPathFlow =
+      [("Create", [0], []), ("Mkdir", [0], []), ("MkdirAll", [0], []), ("MkdirTemp", [0], [1]),
+       ("Open", [0], []), ("OpenFile", [0], []), ("ReadDir", [0], []), ("ReadFile", [0], []),
+       ("Remove", [0], []), ("RemoveAll", [0], []), ("Rename", [0, 1], []), ("Stat", [0], []),
+       ("Symlink", [0, 1], []), ("WalkDir", [0], []), ("WriteFile", [0], [])] := by decide
+
 end Risor.C13
